@@ -17,7 +17,7 @@ def compute_preproc_clip_approach(force):
     # get data
     fg0 = np.array(force, copy=True)
     # Only use the (initial) approach part of the curve.
-    idmax = np.argmax(fg0)
+    idmax = np.argmax(fg0) if fg0.size else 0
     fg = fg0[:idmax]
     return fg
 
@@ -167,7 +167,7 @@ def poc_fit_constant_line(force, ret_details=False):
 
     cp = np.nan
     details = {}
-    if force.size > 4:  # 3 fit parameters
+    if force.size > 4 and np.ptp(force) > 0:  # 3 fit parameters
         # normalize force
         fmin = np.min(force)
         fptp = np.max(force) - fmin
@@ -250,7 +250,7 @@ def poc_fit_constant_polynomial(force, ret_details=False):
 
     cp = np.nan
     details = {}
-    if force.size > 6:  # 5 fit parameters
+    if force.size > 6 and np.ptp(force) > 0:  # 5 fit parameters
         fmin = np.min(force)
         fptp = np.max(force) - fmin
         y = (force - fmin) / fptp
@@ -350,7 +350,7 @@ def poc_fit_line_polynomial(force, ret_details=False):
 
     cp = np.nan
     details = {}
-    if force.size > 7:  # 6 fit parameters
+    if force.size > 7 and np.ptp(force) > 0:  # 6 fit parameters
         fmin = np.min(force)
         fptp = np.max(force) - fmin
         y = (force - fmin) / fptp
@@ -362,7 +362,7 @@ def poc_fit_line_polynomial(force, ret_details=False):
         params.add('d', value=np.mean(y[:10]))
         params.add('x0', value=x0)
         # slope
-        params.add('m', value=y[x0]/x0)
+        params.add('m', value=y[x0]/x0 if x0 else 0)
         # The polynomial fitting parameters are supposed to be
         # greater than zero (source?). We set the minimum to 1e-3 so
         # the fitting algorithm becomes more stable. Also, the initial
@@ -410,23 +410,29 @@ def poc_frechet_direct_path(force, ret_details=False):
     contact point. For shorter baselines, the contact point will
     be closer to the point of maximum indentation.
     """
-    x = np.linspace(0, 1, len(force), endpoint=True)
-    y = (force - force.min()) / (force.max() - force.min())
+    cp = np.nan
+    details = {}
+    # normalization requires at least two different force values
+    if force.size > 1 and np.ptp(force) > 0:
+        x = np.linspace(0, 1, len(force), endpoint=True)
+        y = (force - force.min()) / (force.max() - force.min())
 
-    # rotate the curve towards x
-    # (computation of Frechet distance with curve is now just distance
-    # from x-axis, i.e. minimum)
-    alpha = - np.pi / 4
-    yr = x * np.sin(alpha) + y * np.cos(alpha)
-    cp = np.argmin(yr)
+        # rotate the curve towards x
+        # (computation of Frechet distance with curve is now just distance
+        # from x-axis, i.e. minimum)
+        alpha = - np.pi / 4
+        yr = x * np.sin(alpha) + y * np.cos(alpha)
+        cp = np.argmin(yr)
+
+        if ret_details:
+            details = {"plot normalized rotated force": [
+                           np.arange(len(force)), yr],
+                       "plot poc": [[cp, cp],
+                                    [yr.min(), yr.max()]],
+                       "norm": "force-rotated",
+                       }
 
     if ret_details:
-        details = {"plot normalized rotated force": [np.arange(len(force)),
-                                                     yr],
-                   "plot poc": [[cp, cp],
-                                [yr.min(), yr.max()]],
-                   "norm": "force-rotated",
-                   }
         return cp, details
     else:
         return cp
